@@ -172,6 +172,10 @@ def fn_table(thorough):
     E("ToText<u8>", {}, "bytes", 30, F("totext"))
     E("ToText2<u8>", {}, "bytes", 25, F("totext"), kinds=["bytes", "bytes"])
     E("FftStream", {"size": 4}, "small", 43, F("fftframes", size=4))
+    E("FftStream", {"size": 8}, "small", 1500, F("fftframes", size=8))
+    E("FftStream", {"size": 7}, "small", 1300, F("fftframes", size=7))
+    E("RationalResampler<u8>", {"interp": 3, "deci": 2}, "bytes", 3500, F("resample", interp=3, deci=2))
+    E("RtlSdrDecode", {}, "bytes", 2501, F("rtlsdr"), extra={"out_scale": 125})
     return t
 
 
